@@ -53,6 +53,14 @@ func HistCheckFor(prop string) (HistCheck, bool) {
 		g.PruneDepths = []int{0, 0, 8, 12}
 		g.BaseLens = []int{0, 0, 1, 2, 3, 8, 20, 40}
 		hc.Rule = "locators for max in {1,2,3,10,50} checked after every op of histories with several side branches, cleans, reloads and pruned chains"
+	case "C18":
+		g.WClean, g.WSave, g.WReload = 5, 2, 3
+		g.MinOps, g.MaxOps = 6, 30
+		g.MerkleBlocks = true
+		g.PruneDepths = []int{0, 0, 8, 12}
+		g.BaseLens = []int{0, 2, 8, 20}
+		hc.Post = c18Post
+		hc.Rule = "for the blocks (1-70 txids, real merkle roots) of each generated history: valid proofs by a reference merkle implementation given with header / hash only / both, explicit and DuplicatedIndexes encodings, on best, side and pruned blocks; then every single-element corruption of each valid proof. distinct = (ntx,index,location,encoding)"
 	default:
 		return hc, false
 	}
@@ -62,7 +70,7 @@ func HistCheckFor(prop string) (HistCheck, bool) {
 
 func HistCount(prop, tier string) int {
 	quick := map[string]int{"C01": 6000, "C07": 6000, "C08": 5000, "C09": 5000, "C10": 5000, "C11": 4000,
-		"C12": 2500, "C17": 5000, "C19": 5000}
+		"C12": 2500, "C17": 5000, "C18": 1500, "C19": 5000}
 	n := quick[prop]
 	if tier == "thorough" {
 		n *= 60
@@ -76,7 +84,7 @@ func RunHist(prop, tier string, seed int64) int {
 		return 2
 	}
 	level := "exploration"
-	if prop == "C12" {
+	if prop == "C12" || prop == "C18" {
 		level = "fault_enumeration"
 	}
 	run := common.NewRun(prop, tier, seed, level)
@@ -85,5 +93,9 @@ func RunHist(prop, tier string, seed int64) int {
 		"difficulty checks disabled via the repository's own DisableDifficulty helper so that headers need no mining",
 		"panics are caught at the client boundary and counted as process death"}
 	RunHistCheck(run, hc, HistCount(prop, tier))
+	if prop == "C18" {
+		run.Extra("proofs", map[string]int64{"valid_proofs_verified": c18Obs.valid, "corrupted_proofs_tried": c18Obs.corrupt,
+			"blocks_on_best_chain": c18Obs.bestBlocks, "blocks_on_side_branches": c18Obs.sideBlocks, "blocks_in_pruned_history": c18Obs.prunedBlocks})
+	}
 	return run.Finish()
 }
